@@ -96,9 +96,10 @@ def run(P: Program, R: Report, tier: str) -> None:
     tracks = P.class_named("Tracks")
     facade = {}
     for name, m in tracks.methods.items():
+        # calls a method of the history, or hands one of its bound methods on (self.action_history.undo as an argument)
         calls_hist = any(
-            isinstance(n, ast.Call) and isinstance(n.func, ast.Attribute)
-            and isinstance(n.func.value, ast.Attribute) and n.func.value.attr == "action_history"
+            isinstance(n, ast.Attribute) and isinstance(n.value, ast.Attribute) and n.value.attr == "action_history"
+            and n.attr not in ("undo_stack", "redo_stack")
             for n in ast.walk(m.node)
         )
         if calls_hist:
